@@ -45,7 +45,7 @@ macro_rules! owned_bitop {
 }
 
 /// owned operands that fill their last storage word exactly (16 symbols): each operand is one typed word.
-/// In no tier (c12_x_*): no verdict after 20 min / 6.8 GB (and 10.5 GB with `with_capacity`+`append` pre-states).
+/// Holds at unwind 2 in about 30 s; at the first attempt's unwind 20 it gave no verdict after 20 min / 6.8 GB.
 macro_rules! owned_bitop_word {
     ($or:expr) => {{
         let (x, y) = (any_usize(), any_usize());
@@ -134,8 +134,8 @@ harnesses! {
     }
     fn c12_q_owned_or_1_9_n2 [10] { owned_bitop!(1, 9, 2, true) }
     fn c12_q_owned_and_15_0_n2 [10] { owned_bitop!(15, 0, 2, false) }
-    fn c12_x_owned_or_word [20] { owned_bitop_word!(true) }
-    fn c12_x_owned_and_word [20] { owned_bitop_word!(false) }
+    fn c12_q_owned_or_word [10] { owned_bitop_word!(true) }
+    fn c12_q_owned_and_word [10] { owned_bitop_word!(false) }
 
     fn c12_x_contains_0_2_5_2 [10] { contains!(0, 2, 5, 2, 0) }
     fn c12_x_contains_15_2_1_2 [10] { contains!(15, 2, 1, 2, 0) }
